@@ -248,14 +248,30 @@ def _bp(v, typ, le, key=None):
     return sa.bindparam(key, v, type_=typ, literal_execute=le)
 
 
-def positions(kind, t, t2):
+COMPANION = dict(
+    string="y",
+    unicode="y",
+    text="y",
+    unicodetext="y",
+    int=6,
+    float=3.5,
+    numeric=D("3.5"),
+    date=dt.date(2002, 3, 4),
+    datetime=dt.datetime(2002, 3, 4, 5, 6, 7),
+    time=dt.time(5, 6, 7),
+    bool=False,
+)
+
+
+def positions(kind, t, t2, companion=None):
     """name -> builder(value, literal_execute flag) returning a fresh statement"""
     typ = TYPES[kind]
+    comp = BENIGN[kind] if companion is None else companion
     col = t.c[COLUMN[kind]]
     pos = {}
     pos["select-list"] = lambda v, le: sa.select(_bp(v, typ(), le).label("v"))
     pos["where"] = lambda v, le: sa.select(t.c.id).where(col == _bp(v, typ(), le)).order_by(t.c.id)
-    pos["in-list"] = lambda v, le: sa.select(t.c.id).where(col.in_(sa.bindparam(None, [v, BENIGN[kind]], type_=typ(), expanding=True, literal_execute=le))).order_by(t.c.id)
+    pos["in-list"] = lambda v, le: sa.select(t.c.id).where(col.in_(sa.bindparam(None, [v, comp], type_=typ(), expanding=True, literal_execute=le))).order_by(t.c.id)
     pos["not-in-list"] = lambda v, le: sa.select(sa.func.count()).select_from(t).where(col.not_in(sa.bindparam(None, [v], type_=typ(), expanding=True, literal_execute=le)))
     pos["case"] = lambda v, le: sa.select(t.c.id, sa.case((col == _bp(v, typ(), le), _bp(v, typ(), le)), else_=sa.null()).label("v")).where(col.is_not(None)).order_by(t.c.id).limit(40)
     if kind in ("string", "unicode", "text", "unicodetext"):
@@ -265,9 +281,9 @@ def positions(kind, t, t2):
     if kind == "int":
         pos["limit"] = lambda v, le: sa.select(t.c.id).order_by(t.c.id).limit(_bp(v, typ(), le)) if v is not None and 0 <= v < 2**62 else None
         pos["offset"] = lambda v, le: sa.select(t.c.id).order_by(t.c.id).limit(3).offset(_bp(v, typ(), le)) if v is not None and 0 <= v < 2**62 else None
-        pos["arith"] = lambda v, le: sa.select((t.c.i - _bp(v, typ(), le)).label("v")).where(t.c.i.is_not(None)).order_by(t.c.id)
+        pos["arith"] = lambda v, le: sa.select((t.c.i + _bp(v, typ(), le)).label("v")).where(t.c.i.is_not(None)).order_by(t.c.id)
     if kind in ("float", "numeric"):
-        pos["arith"] = lambda v, le: sa.select((col - _bp(v, typ(), le)).label("v")).where(col.is_not(None)).order_by(t.c.id)
+        pos["arith"] = lambda v, le: sa.select((col + _bp(v, typ(), le)).label("v")).where(col.is_not(None)).order_by(t.c.id)
     return pos
 
 
@@ -276,6 +292,13 @@ def _rows(result):
 
 
 def _req(a, b):
+    return repr(a) == repr(b)
+
+
+def _req_raw(a, b, kind):
+    """raw DBAPI rows: SQLite hands back 0 for the literal 0 and 0.0 for a bound float 0.0 -- the same number"""
+    if kind in ("float", "numeric"):
+        return a == b
     return repr(a) == repr(b)
 
 
@@ -315,7 +338,7 @@ def exec_case(style, tier, kind, v):
                 if mode == "render_postcompile" and comp.params:
                     continue  # something stayed bound (not a literal_execute-only statement)
                 got = _rows(conn.exec_driver_sql(sql))
-                if not _req(got, base_raw):
+                if not _req_raw(got, base_raw, kind):
                     out.append(("%s:%s-rows-differ" % (pname, mode), "%r gives %r, bound gives %r" % (sql[:120], got[:3], base_raw[:3])))
             except Exception as e:
                 out.append(("%s:%s-raises" % (pname, mode), "%s: %s" % (type(e).__name__, str(e).split("\n")[0][:100])))
@@ -411,10 +434,10 @@ def _dialect_configs():
         "mysql+mysqldb/no-backslash-escapes": (cfg(mysqldb.dialect, _backslash_escapes=False), "mysql_nobs", True),
         "mysql+mysqlconnector": (cfg(mysqlconnector.dialect), "mysql", False),
         "mariadb": (cfg(mariadb.MariaDBDialect), "mysql", True),
-        "mssql+pyodbc": (cfg(pyodbc.dialect), "mssql", False),
-        "mssql+pymssql": (cfg(pymssql.dialect), "mssql", False),
+        "mssql+pyodbc": (lambda: pyodbc.dialect(paramstyle="qmark"), "mssql", False),
+        "mssql+pymssql": (lambda: pymssql.dialect(paramstyle="pyformat"), "mssql", False),
         "oracle+oracledb": (cfg(oracledb.dialect), "oracle", False),
-        "sqlite": (cfg(pysqlite.dialect), "sqlite", False),
+        "sqlite": (lambda: pysqlite.dialect(paramstyle="qmark"), "sqlite", False),
         "default": (cfg(default.DefaultDialect), "postgresql", False),
     }
 
@@ -435,6 +458,7 @@ CONFIG_NAMES = [
     "sqlite",
     "default",
 ]
+CORE_CONFIGS = ("postgresql+psycopg2", "postgresql+psycopg2/scs-off", "mysql+mysqldb", "mysql+mysqldb/no-backslash-escapes", "mssql+pyodbc", "oracle+oracledb")
 _CCACHE = {}
 
 
@@ -445,12 +469,27 @@ def config(name):
     return _CCACHE[name]
 
 
-_LT = sa.table("t", sa.column("id"), sa.column("s"), sa.column("i"), sa.column("f"), sa.column("n"), sa.column("d"), sa.column("dtm"), sa.column("tm"), sa.column("b"))
-_LT2 = sa.table("t2", sa.column("id"), sa.column("s"), sa.column("i"), sa.column("f"), sa.column("n"), sa.column("d"), sa.column("dtm"), sa.column("tm"), sa.column("b"))
+def _lt(name):
+    return sa.table(
+        name,
+        sa.column("id", sa.Integer),
+        sa.column("s", sa.String),
+        sa.column("i", sa.BigInteger),
+        sa.column("f", sa.Float),
+        sa.column("n", sa.Numeric(16, 4)),
+        sa.column("d", sa.Date),
+        sa.column("dtm", sa.DateTime),
+        sa.column("tm", sa.Time),
+        sa.column("b", sa.Boolean),
+    )
+
+
+_LT = _lt("t")
+_LT2 = _lt("t2")
 
 
 def lex_positions(kind):
-    pos = positions(kind if kind in TYPES else "string", _LT, _LT2)
+    pos = positions(kind, _LT, _LT2, companion=COMPANION[kind])
     typ = TYPES[kind]
     pos.pop("text-bind", None)
     pos["insert-values"] = lambda v, le: _LT2.insert().values({"id": 1, COLUMN[kind]: _bp(v, typ(), le)})
@@ -469,10 +508,16 @@ def _render(name, stmt, mode):
     return sql, txt, err
 
 
+_KW_BEFORE_UNARY = {"select", "where", "in", "then", "else", "values", "set", "limit", "offset", "and", "or", "when", "by", "like", "not", "on", "having"}
+
+
 def _num_value(toks, idx):
     """numeric value of the num token at idx, with a directly preceding unary minus"""
     t = toks[idx]
-    neg = idx > 0 and toks[idx - 1].kind == "op" and toks[idx - 1].text == "-" and (idx < 2 or toks[idx - 2].kind in ("op", "word") and toks[idx - 2].text not in (")",))
+    neg = idx > 0 and toks[idx - 1].kind == "op" and toks[idx - 1].text == "-"
+    if neg and idx >= 2:
+        p = toks[idx - 2]
+        neg = (p.kind == "op" and p.text != ")") or (p.kind == "word" and p.text.lower() in _KW_BEFORE_UNARY)
     try:
         val = D(t.text)
     except decimal.InvalidOperation:
@@ -480,7 +525,11 @@ def _num_value(toks, idx):
     return -val if neg else val
 
 
-def lex_case(name, kind, v):
+_BENIGN_CACHE = {}
+_CORE_POSITIONS = ("select-list", "in-list", "insert-values", "case")
+
+
+def lex_case(name, kind, v, core_only=False):
     """returns (list of (failure kind, detail), n statements lexed)"""
     d, g, und = config(name)
     out = []
@@ -490,16 +539,26 @@ def lex_case(name, kind, v):
         ben = -ben
     if v is not None and kind == "bool":
         ben = not v
+    if kind == "bool":
+        ben = v  # both booleans render as keywords / 0-1: only "compiles and lexes cleanly" is claimed
+    if v is not None and kind in ("datetime", "time") and v.microsecond:
+        ben = ben.replace(microsecond=7)
     for pname, build in lex_positions(kind).items():
+        if core_only and pname not in _CORE_POSITIONS:
+            continue
         for mode in ("literal_binds", "render_postcompile"):
             le = mode == "render_postcompile"
             try:
                 sv = build(v, le)
-                sb = build(ben if v is not None else None, le)
-                if sv is None or sb is None:
+                if sv is None:
                     continue
                 sql, txt, err = _render(name, sv, mode)
-                sqlb, txtb, errb = _render(name, sb, mode)
+                bkey = (name, kind, pname, mode, repr(ben if v is not None else None))
+                if bkey not in _BENIGN_CACHE:
+                    sqlb, txtb, errb = _render(name, build(ben if v is not None else None, le), mode)
+                    tb = L.tokenize(txtb, g)
+                    _BENIGN_CACHE[bkey] = (txtb, tb, L.shape(tb))
+                txtb, toksb, shb = _BENIGN_CACHE[bkey]
             except Exception as e:
                 out.append(("%s:%s:compile-raises" % (pname, mode), "%s: %s" % (type(e).__name__, str(e).split("\n")[0][:120])))
                 continue
@@ -508,8 +567,7 @@ def lex_case(name, kind, v):
                 out.append(("%s:%s:stray-percent-for-formatting-driver" % (pname, mode), "%r: %s" % (sql[:160], err)))
                 continue
             toks = L.tokenize(txt, g)
-            toksb = L.tokenize(txtb, g)
-            sh, shb = L.shape(toks), L.shape(toksb)
+            sh = L.shape(toks)
             if sh != shb:
                 out.append(("%s:%s:statement-shape-changes" % (pname, mode), "%r lexes as %s; with benign value %s" % (txt[:200], " ".join(sh)[:200], " ".join(shb)[:200])))
                 continue
@@ -627,9 +685,10 @@ def _report(rec, family, where, kind, v, res, fails_fn):
             minima.append(mv)
     for mv in minima:
         rm = fails_fn(mv)
-        kinds = sorted(set(k for k, _ in rm))
-        sig = "%s %s: %s value %r: %s" % (family, where, kind, mv, "; ".join(kinds))
-        rec.violation(sig, " | ".join("%s: %s" % kd for kd in rm)[:3000] + " (first seen on %r)" % (v,), dict(family=family, where=where, tier_strings=None, **_jsonable(kind, mv)))
+        # signature: failure classes without the clause position (one root cause shows in every position)
+        classes = sorted(set(k.split(":", 1)[1] for k, _ in rm))
+        sig = "%s %s: %s value %r: %s" % (family, where, kind, mv, "; ".join(classes))
+        rec.violation(sig, " | ".join("%s: %s" % kd for kd in rm)[:3000] + " (first seen on %r)" % (v,), dict(family=family, where=where, **_jsonable(kind, mv)))
 
 
 # ------------------------------------------------------------------ shards
@@ -689,23 +748,32 @@ def run_shard(shard, tier, rec):
             if nt and (idx // nparts) % 211 == 5:
                 rec.sample(dict(family="exec", paramstyle=style, kind=kind, value=repr(v), failures=[k for k, _ in res]))
             if res:
-                _report(rec, "exec", "sqlite/" + style, kind, v, res, lambda x, style=style, kind=kind: exec_case(style, tier, kind, x))
+                _report(rec, "exec", "sqlite", kind, v, [(k, "[paramstyle %s] %s" % (style, d)) for k, d in res], lambda x, style=style, kind=kind: exec_case(style, tier, kind, x))
         return
     if fam == "lex":
         _, name, part, nparts = shard
-        vals = _all_values(tier)
+        if name in CORE_CONFIGS:
+            vals = _all_values(tier)
+        else:
+            vals = [("string", s) for s in strings_upto(2 if tier == "quick" else 3) + IDIOMS] + OTHER_VALUES
         extra = [(k, s) for k in ("unicode", "text", "unicodetext") for s in strings_upto(2) + IDIOMS]
         for idx, (kind, v) in enumerate(vals + extra):
             if idx % nparts != part:
                 continue
-            res, n = lex_case(name, kind, v)
+            core_only = isinstance(v, str) and len(v) > 2 and v not in IDIOMS
+            res, n = lex_case(name, kind, v, core_only)
+            if res and kind in ("unicode", "text", "unicodetext"):
+                # same rendering path as String unless the kinds of failure differ: report under "string" only
+                rs, _ = lex_case(name, "string", v, core_only)
+                if sorted(k for k, _ in rs) == sorted(k for k, _ in res):
+                    res = []
             nt = _nontrivial(kind if kind in ("int", "float", "numeric", "date", "datetime", "time", "bool") else "string", v)
             rec.case(("lex", name, kind, repr(v)), nontrivial=nt, n=max(n, 1))
             rec.outcome(("lex", name, kind, tuple(k for k, _ in res)))
             if nt and (idx // nparts) % 397 == 11 and isinstance(v, str):
                 rec.sample(dict(family="lex", dialect=name, kind=kind, value=repr(v), rendered=_render(name, sa.select(_bp(v, TYPES[kind](), False)), "literal_binds")[0]))
             if res:
-                _report(rec, "lex", name, kind, v, res, lambda x, name=name, kind=kind: lex_case(name, kind, x)[0])
+                _report(rec, "lex", name, kind, v, res, lambda x, name=name, kind=kind, co=core_only: lex_case(name, kind, x, co)[0])
         return
     raise AssertionError(shard)
 
@@ -717,11 +785,13 @@ def replay(case):
     fam, where = case["family"], case["where"]
     rec = _MiniRec()
     if fam == "exec":
-        style = where.split("/", 1)[1]
         tier = "quick" if not isinstance(v, str) or len(v) <= 3 else "thorough"
-        res = exec_case(style, tier, kind, v)
-        if res:
-            _report(rec, fam, where, kind, v, res, lambda x: exec_case(style, tier, kind, x))
+        for style in PARAMSTYLES:
+            res = exec_case(style, tier, kind, v)
+            if res:
+                _report(rec, fam, where, kind, v, res, lambda x: exec_case(style, tier, kind, x))
+        seen = set()
+        rec.out = [x for x in rec.out if not (x[0] in seen or seen.add(x[0]))]
     else:
         res, _ = lex_case(where, kind, v)
         if res:
